@@ -853,6 +853,8 @@ def main():
         if path is None:
             raise ValueError("'-path' option is required")
         # Store object to HashStore
+        if size is not None:
+            size = int(size)
         object_metadata = hashstore_c.hashstore.store_object(
             pid, path, algorithm, checksum, checksum_algorithm, size
         )
